@@ -23,7 +23,7 @@ func init() {
 		Assumptions: []string{"Getw/Join widths restricted to {1,2,4,8,16,32,64} and Slice to 0<=from<=to<=64*len (the stated domain)",
 			"nothing asserted about capacity of returned slices"},
 		Flavours: releaseThenGo126,
-		Required: []string{"join/w=1", "join/w=2", "join/w=4", "join/w=8", "join/w=16", "join/w=32", "join/w=64", "join/empty",
+		Required: []string{"join/w=1", "join/w=2", "join/w=4", "join/w=8", "join/w=16", "join/w=32", "join/w=64", "join/empty", "join/long-list",
 			"slice/empty", "slice/aligned", "slice/unaligned", "slice/multiword", "slice/to-end", "slice/sub-word"},
 		Families: func(c *mon.Config) []mon.Family {
 			reps := c.Pick(6, 1000)
@@ -31,6 +31,7 @@ func init() {
 				{Name: "join", N: len(c14Widths) * 131 * reps, Run: c14Join},
 				{Name: "slice-all", N: c.Pick(900, 150000), Run: c14SliceAll},
 				{Name: "slice-zoo", N: c.Pick(4000, 1000000), Run: c14SliceZoo},
+				{Name: "join-long", N: 7 * c.Pick(2, 100), Run: c14JoinLong},
 			}
 		},
 	})
@@ -256,4 +257,53 @@ func c14SliceZoo(w *mon.W, idx int) {
 	w.Sample(func() interface{} {
 		return mon.D{"call": "Slice, sampled windows", "nwords": nw, "first_words": truncW(orig, 3)}
 	})
+}
+
+// c14JoinLong: lists of 5000..70000 values (element index * width beyond 2^16 and 2^21 bits).
+func c14JoinLong(w *mon.W, idx int) {
+	r := w.Rng
+	width := c14Widths[idx%7]
+	n := 5000 + r.Intn(65000)
+	vals := make([]uint64, n)
+	for i := range vals {
+		vals[i] = r.Uint64()
+	}
+	w.Op, w.A, w.B = "Join(long)", int64(width), int64(n)
+	got := bitmap.Join(vals, width)
+	w.Eval(1)
+	w.Tick()
+	if len(got) != (n*int(width)+63)/64 {
+		w.Fail("Join/len", mon.D{"width": width, "n": n, "got_words": len(got), "expected_words": (n*int(width) + 63) / 64})
+		return
+	}
+	mask := ^uint64(0)
+	if width < 64 {
+		mask = (uint64(1) << uint(width)) - 1
+	}
+	for i := 0; i < n; i++ {
+		if g := bitmap.Getw(got, int32(i), width); g != vals[i]&mask {
+			w.Fail(fmt.Sprintf("Getw/w=%d", width), mon.D{"width": width, "i": i, "n": n, "got": g, "expected": vals[i] & mask})
+			return
+		}
+	}
+	// no other bit set: total popcount equals the popcount of the masked values
+	var a, b int
+	for _, x := range got {
+		for ; x != 0; x &= x - 1 {
+			a++
+		}
+	}
+	for _, x := range vals {
+		for x &= mask; x != 0; x &= x - 1 {
+			b++
+		}
+	}
+	if a != b {
+		w.Fail("Join/stray-bits", mon.D{"width": width, "n": n, "ones_in_result": a, "ones_in_values": b})
+		return
+	}
+	w.Eval(int64(n))
+	w.Bucket("join/long-list")
+	w.Distinct(gen.Hash64(0x7019, uint64(width), uint64(n), vals[0]))
+	w.Sample(func() interface{} { return mon.D{"call": "Join+Getw, long list", "width": width, "n": n} })
 }
